@@ -870,21 +870,28 @@ mod os {
                 posix::chdir(cwd)?;
             }
 
+            // Make `file` the standard stream `fd` of the child.
+            fn install(file: &File, fd: i32) -> io::Result<()> {
+                if file.as_raw_fd() != fd {
+                    // the new descriptor is not close-on-exec
+                    posix::dup2(file.as_raw_fd(), fd)?;
+                } else {
+                    // already in place, make sure it survives exec
+                    let old = posix::fcntl(fd, posix::F_GETFD, None)?;
+                    posix::fcntl(fd, posix::F_SETFD, Some(old & !posix::FD_CLOEXEC))?;
+                }
+                Ok(())
+            }
+
             let (stdin, stdout, stderr) = child_ends;
             if let Some(stdin) = stdin {
-                if stdin.as_raw_fd() != 0 {
-                    posix::dup2(stdin.as_raw_fd(), 0)?;
-                }
+                install(&stdin, 0)?;
             }
             if let Some(stdout) = stdout {
-                if stdout.as_raw_fd() != 1 {
-                    posix::dup2(stdout.as_raw_fd(), 1)?;
-                }
+                install(&stdout, 1)?;
             }
             if let Some(stderr) = stderr {
-                if stderr.as_raw_fd() != 2 {
-                    posix::dup2(stderr.as_raw_fd(), 2)?;
-                }
+                install(&stderr, 2)?;
             }
             posix::reset_sigpipe()?;
 
